@@ -8,6 +8,7 @@ from props.fanout_common import behaviours
 VARIANTS = [("rtmp", False), ("rtmpmw", False), ("flv", False), ("wsflv", False), ("ts", False), ("wsts", False),
             ("rtsp", False), ("wsrtsp", False), ("flv", True), ("rtmpmw", True), ("rtsp", True)]
 RTSP_HOOK = "pkg/rtsp/verif_hooks_wchan.go"   # VerifSetServerCommandSessionWriteChanSize
+TCP_BOUND_US = 1000000   # real sockets on a shared machine: 1 s (a lingering close under the lock costs seconds)
 BOUND_US = 100000   # delivery / call latency bound of the property: 100 ms
 # frame body lengths (0 = the driver's small / several-chunk pool); the big ones are several times any piece size
 # a session could cut a write into (16 KB, 32 KB, 64 KB)
@@ -17,7 +18,7 @@ RTSP_SIZES = [0, 0, 0, 0, 3000, 9000]   # one RTP packet per 1.2 KB: a frame is 
 
 def write_cfg(name, spec, n, parts, ws, maxpub, maxread, maxstall, maxsweep, healthy, invs=None, prop=None,
               view=None, emit=False, maxleave=0, elemparts=1, enq=False, deadline=True, prime=False, other=False,
-              maxpubb=0):
+              maxpubb=0, maxcmd=0):
     tf = lambda b: "TRUE" if b else "FALSE"
     lines = ["SPECIFICATION " + spec, "CONSTANTS", '  Cons = {"s1", "s2"}',
              '  Healthy = {"h"}' if healthy else "  Healthy = {}",
@@ -25,7 +26,7 @@ def write_cfg(name, spec, n, parts, ws, maxpub, maxread, maxstall, maxsweep, hea
              "  N = %d" % n, "  HCap = 64", "  Parts = %d" % parts, "  ElemParts = %d" % elemparts,
              "  WsMode = " + tf(ws), "  EnqAcct = " + tf(enq), "  HasDeadline = " + tf(deadline), "  Prime = " + tf(prime),
              "  MaxPub = %d" % maxpub, "  MaxRead = %d" % maxread, "  MaxStall = %d" % maxstall,
-             "  MaxSweep = %d" % maxsweep, "  MaxLeave = %d" % maxleave, "  MaxPubB = %d" % maxpubb]
+             "  MaxSweep = %d" % maxsweep, "  MaxLeave = %d" % maxleave, "  MaxPubB = %d" % maxpubb, "  MaxCmd = %d" % maxcmd]
     if invs:
         lines.append("INVARIANTS " + invs)
     if prop:
@@ -82,6 +83,12 @@ def run(ctx):
     res = E.tlc(ctx, "MC_Backpressure", cfg, timeout=1500, deadlock=False)
     E.require_design_ok(ctx, res, cfg)
     ctx.log("design, merged writes: %d distinct states, WholeUnits / NoBlocking / QueueBound hold" % res["distinct"])
+    # a second producer: the read loop of a consumer answers requests (one element per answer) at any moment of the fan-out
+    cfg = write_cfg("MC_Backpressure_reply.cfg", "FineSpec", 2, 1, False, 2 if q else 3, 2, 2, 1, False,
+                    invs="WholeUnits NoBlocking QueueBound", view="FineView", maxcmd=2)
+    res = E.tlc(ctx, "MC_Backpressure", cfg, timeout=1500, deadlock=False)
+    E.require_design_ok(ctx, res, cfg)
+    ctx.log("design, answers to the consumer's requests: %d distinct states, WholeUnits / NoBlocking / QueueBound hold" % res["distinct"])
     # RTSP interleaved: no write deadline, liveness accounted at enqueue: the sweep alone must cut a stalled consumer
     cfg = write_cfg("MC_Backpressure_live_rtsp.cfg", "FineFair", 1 if q else 2, 1, False, 2 if q else 3, 2, 2, 0, False,
                     prop="EventuallyClosed", enq=True, deadline=False)
@@ -101,9 +108,9 @@ def run(ctx):
     scen = []
     kinds = ["key", "inter", "inter", "aud", "meta"]
     for n in (1, 2, 3):
-        cfg = write_cfg("MC_Backpressure_gen_%d.cfg" % n, "GSpec", n, 1, False, 6, 4, 2,
+        cfg = write_cfg("MC_Backpressure_gen_%d.cfg" % n, "GSpec", n, 1, False, 6, 4 if q else 3, 2,
                         3, True, invs="Quiescent QueueBound WholeUnits", view="GView", emit=not q, maxleave=1,
-                        prime=True, other=True, maxpubb=2 if q else 1)
+                        prime=True, other=True, maxpubb=2 if q else 1, maxcmd=3 if q else 1)
         if q:
             # quick: TLC-simulated behaviours of the same model (the exhaustive run with its edge cover is thorough);
             # half of them with a single sweep, so that the consumers live long enough to be read slowly
@@ -134,7 +141,7 @@ def run(ctx):
                 # fresh consumer the cached headers as well) is published while all of them read
                 steps = [{"name": "PubArrive"}, {"name": "Publish", "t": "vsh"}, {"name": "Publish", "t": "ash"},
                          {"name": "Join"}, {"name": "Publish", "t": "key"}]
-                first, firstb = False, True
+                first, firstb, ncmd = False, True, 0
                 for a in p:
                     if a["name"] == "PublishB" and not two:
                         continue
@@ -149,6 +156,25 @@ def run(ctx):
                     if a["name"] == "PublishB":
                         st["t"] = "key" if firstb else "inter"
                         firstb = False
+                    if a["name"] == "Cmd":
+                        # a request the session answers on the consumer's own connection; answers of different
+                        # lengths in a row (ping response 18 bytes, _result 41; CSeq of one to five digits)
+                        if proto in ("rtmp", "rtmpmw"):
+                            st["k"], st["v"] = [("ping", 1000 + ncmd), ("cs", 10 + ncmd), ("ping", 70000 + ncmd)][ncmd % 3]
+                        elif "rtsp" in proto:
+                            st["k"], st["v"] = "opt", [7, 12345, 88][ncmd % 3] + 100 * (ncmd // 3)
+                        else:
+                            continue
+                        ncmd += 1
+                        # one to three requests in a row: the later answers are built while the earlier ones wait
+                        for _ in range(ctx.rng.randrange(3)):
+                            steps.append(dict(st))
+                            st = dict(st)
+                            if proto in ("rtmp", "rtmpmw"):
+                                st["k"], st["v"] = [("ping", 1000 + ncmd), ("cs", 10 + ncmd), ("ping", 70000 + ncmd)][ncmd % 3]
+                            else:
+                                st["v"] = [7, 12345, 88][ncmd % 3] + 100 * (ncmd // 3)
+                            ncmd += 1
                     steps.append(st)
                     if a["name"] == "PubArrive":      # a returning publisher starts with its headers and a key frame
                         steps += [{"name": "Publish", "t": "vsh"}, {"name": "Publish", "t": "ash"}]
@@ -157,6 +183,15 @@ def run(ctx):
                         steps.append({"name": "Stat"})
                 scen.append({"sc": len(scen), "cfgId": "%s%s-%d" % (proto, "+B" if two else "", n),
                              "cfg": {"proto": proto, "two": two, "n": n, "boundUs": BOUND_US}, "steps": steps})
+    # ---- consumers on real loopback TCP connections through the servers' own per-connection routines: the cost of the
+    # socket operations lal performs under Group.mutex (close of a stalled consumer by the sweep, kick).  Fixed
+    # schedule, judged on measured durations with a bound generous enough for a loaded machine.
+    ntcp = 0
+    for rep in range(1 if q else 3):
+        for proto in (["rtsp"] if rtsp_ok else []) + ["rtmp"]:
+            scen.append({"sc": len(scen), "cfgId": "tcp-%s" % proto,
+                         "cfg": {"proto": proto, "tcp": True, "n": 3, "boundUs": TCP_BOUND_US}, "steps": []})
+            ntcp += 1
     sp, tp = ctx.path("scen.ndjson"), ctx.path("trace.ndjson")
     E.write_ndjson(sp, scen)
     E.run_driver(ctx, "stall", sp, tp, timeout=3000)
@@ -185,6 +220,10 @@ def run(ctx):
         w = why.get((sid, r["line"]), "Rejected")
         fam = "wsrtsp" if proto == "wsrtsp" else "ws" if proto.startswith("ws") else proto
         sig = "%s:%s:%s" % (w, fam, r["event"].get("ev"))
+        if r["event"].get("ev") == "Tcp":
+            sig = "%s:tcp-%s:%s" % (w, proto, r["event"].get("step"))
+        if w.startswith("Reply"):   # an answer to the consumer's own request: one class per protocol family
+            sig = "%s:%s" % (w, "rtmp" if fam.startswith("rtmp") else fam)
         E.report(ctx, sig, "trace rejected (%s) at %s, scenario %s (%s) line %d: %s" %
                  (w, r["event"].get("ev"), sid, scen[sid]["cfgId"] if sid is not None and sid < len(scen) else "?",
                   r["line"], str(r["event"])[:400]),
